@@ -4,6 +4,7 @@ mod gen;
 mod reftree;
 mod jslayout;
 mod rng;
+mod sched;
 mod sim;
 mod watchdog;
 use std::io::Write;
@@ -74,6 +75,7 @@ fn main() {
         "faults" => { finish(&out, gen::fault_histories(seed, n, arg("--maxops", "8").parse().unwrap())); }
         "tree" => { finish(&out, gen::tree_histories(seed, n, arg("--maxlen", "70").parse().unwrap())); }
         "layout" => { finish(&out, gen::layout_histories(seed, n, arg("--maxops", "14").parse().unwrap())); }
+        "sched" => { finish(&out, sched::schedules(seed, n)); }
         "repl" => {
             let maxlen: u64 = arg("--maxlen", "20").parse().unwrap();
             let mode = match arg("--mode", "log").as_str() { "crash" => gen::Mode::Crash, "torn" => gen::Mode::Torn, _ => gen::Mode::Log };
